@@ -87,9 +87,10 @@ def jobs(tier):
     q = tier == 'quick'
     cur = {t['name']: t for t in T.curated()}
     out = []
-    plans = [('tb2', ['A', 'B']), ('hyb2', ['A', 'B']), ('tb_ev', ['A', 'B']), ('weak2', ['A', 'B'])]
+    # *_init: the culprit has further steps queued (initial events) when its malformed reply arrives
+    plans = [('tb2', ['A', 'B']), ('hyb2', ['A', 'B']), ('tb_ev', ['A', 'B']), ('weak2', ['A', 'B']), ('tb_ev_init', ['A']), ('hyb2_init', ['B'])]
     if not q:
-        plans += [('ev2', ['A', 'B']), ('tbloop', ['A', 'B']), ('hy_tb', ['A', 'B']),
+        plans += [('tb_ev_init', ['B']), ('hyb2_init', ['A']), ('ev2_init2', ['A', 'B']), ('ev2', ['A', 'B']), ('tbloop', ['A', 'B']), ('hy_tb', ['A', 'B']),
                   ('chain3ev', ['A', 'B']), ('fanin', ['B', 'C']), ('grp_sib', ['A', 'B']), ('tbchain3', ['B'])]
     for name, culprits in plans:
         t = cur[name]
